@@ -28,7 +28,7 @@ class CThread:
     __slots__ = (
         'tid', 'name', 'role', 'baton', 'pred', 'alive', 'wake_at', 'exc',
         'interruptible', 'kbi_at', 'what', 'os', 'fn', 'result', 'started',
-        'finished_step', 'waiting_on', 'last_wait_blocked',
+        'finished_step', 'waiting_on', 'last_wait_blocked', 'urgent',
     )
 
     def __init__(self, tid, name, role, fn):
@@ -49,6 +49,7 @@ class CThread:
         self.finished_step = None
         self.waiting_on = None
         self.last_wait_blocked = None
+        self.urgent = False
 
     def __repr__(self):
         return f'<T{self.tid} {self.name} {self.what}>'
@@ -300,13 +301,19 @@ class Scheduler:
         nblocked = sum(1 for t in self.threads if t.alive) - len(enabled)
         if nblocked > self.max_blocked:
             self.max_blocked = nblocked
+        # harness threads waiting for a trigger (a drawn step / event) run as
+        # soon as the trigger fires, so that the action lands where it was
+        # drawn to land instead of whenever the policy gets round to it
+        for t in enabled:
+            if t.urgent and t is not cur:
+                return t
         if len(enabled) > 1:
             self.nchoices += 1
         return self.policy.pick(self, enabled, cur)
 
     # -- the scheduling point ------------------------------------------
     def point(self, pred=None, what='', interruptible=False, wake_at=None,
-              force_switch=False):
+              force_switch=False, prefer=None, urgent=False):
         c = self.cur
         if self.aborting:
             raise SchedAbort()
@@ -324,11 +331,15 @@ class Scheduler:
         c.what = what
         c.interruptible = interruptible
         c.wake_at = wake_at
+        c.urgent = urgent
         nxt = self._choose(c)
         if force_switch and nxt is c:
             others = [t for t in self._enabled() if t is not c]
             if others:
                 nxt = others[self.step % len(others)]
+        if prefer is not None and prefer.alive and nxt is not None and (
+                prefer.pred is None or prefer.pred()):
+            nxt = prefer
         if nxt is None:
             self._record_deadlock()
             self.aborting = True
@@ -343,6 +354,7 @@ class Scheduler:
                 c.pred = None
                 raise SchedAbort()
         got = pred is None or pred()
+        c.urgent = False
         c.pred = None
         c.wake_at = None
         c.interruptible = False
